@@ -110,7 +110,8 @@ class Ex:
     """typed expression.  op / args:
     lit(value) var(name) nan  cast(e)  neg(e) abs(e) add sub mul (a,b)  div(a,b; aux='checked'|'guarded')
     pow(e; aux=n)  min max (a,b)  cmp(a,b; aux=lt|le|gt|ge|eq|ne)  and or (a,b) not(e)  isnan(e)
-    streq(var; aux=literal)  const(aux=True|False)"""
+    streq(var; aux=literal)  const(aux=True|False)
+    ext(args…; aux=(Lean function name, Python function)): an operation supplied by a generator (never by `Translator`)"""
     op: str
     ty: str
     args: Tuple = ()
@@ -1160,6 +1161,8 @@ def lean_expr(e: Ex) -> str:
         return f"({a[0]} == {lean_str(e.aux)})"
     if e.op in ("ceil", "floor", "trunc"):
         return f"(PyExpr.r{e.op} {a[0]})"
+    if e.op == "ext":  # an operation a generator supplies itself: aux = (Lean function, exact Python function)
+        return "(" + " ".join([e.aux[0]] + a) + ")"
     raise TranslatorBug(f"cannot render {e.op}")
 
 
@@ -1313,6 +1316,8 @@ def ev(e: Ex, env):
         if e.op == "floor" or q.denominator == 1:
             return fl
         return fl + 1 if (e.op == "ceil" or q < 0) else fl  # trunc: towards zero
+    if e.op == "ext":  # never produced by `Translator`; see translator/gen_kernels_criteria.py
+        return e.aux[1](*a)
     raise TranslatorBug(f"cannot evaluate {e.op} ({t})")
 
 
